@@ -55,7 +55,7 @@ class C04(Check):
         "x {LF,CRLF} x final newline {yes,no} x description {no,yes} x buffer {1,2,3,100}. Oracle: quintuples, every interval via "
         "sequence_bytes, derived run list, stream-back == record with non-ACGT -> N, duplicate / empty files rejected, .fai/.agp "
         "files of a real-file slice and the warm reload. non-trivial = file with a non-ACGT run, or multi-line, or CRLF, or no final newline"
-        " Header variants: none, description, trailing blank, trailing tab, description with trailing blank. Duplicate rejection: every name sequence of 2-4 records with a repeat."
+        " Header variants: none, description, trailing blank, trailing tab, description with trailing blank, description after a tab. Duplicate rejection: every name sequence of 2-4 records with a repeat."
     )
     assumptions = [
         "well-formed = uniform width per record, no blank lines, no empty records, header token without spaces",
@@ -76,7 +76,7 @@ class C04(Check):
         out = []
         for eol in ("LF", "CRLF"):
             for fnl in (True, False):
-                for desc in (False, True, " ", "\t", " desc with trailing blank "):
+                for desc in (False, True, " ", "\t", " desc with trailing blank ", "\tdesc after a tab"):
                     for first in range(3):
                         out.append(("single", eol, fnl, desc, first, b["single_len"]))
                     out.append(("pair", eol, fnl, desc, b["pair_len"]))
